@@ -96,6 +96,13 @@ Qed.
 Lemma wf_delete : forall d ids, wf d -> wf (delete d ids).
 Proof. intros d ids [Hv Hi]. split; apply NoDup_map_filter; assumption. Qed.
 
+Lemma wf_reopen : forall d, wf d -> wf (reopen d).
+Proof.
+  intros d [Hv Hi]. unfold reopen. split; rewrite map_map.
+  - erewrite map_ext; [exact Hv|]. intros r. unfold unclaim. destruct (r_status r); reflexivity.
+  - erewrite map_ext; [exact Hi|]. intros r. unfold unclaim. destruct (r_status r); reflexivity.
+Qed.
+
 Lemma wf_apply : forall d o d', wf d -> apply d o = Some d' -> wf d'.
 Proof.
   intros d o d' Hw H. destruct o as [us|limit ids|ids|i|]; simpl in H.
@@ -104,7 +111,7 @@ Proof.
     unfold claim. apply wf_fold_status; exact Hw.
   - inversion H; subst. apply wf_delete; exact Hw.
   - inversion H; subst. unfold reset. apply wf_set_status; exact Hw.
-  - inversion H; subst. exact Hw.
+  - inversion H; subst. apply wf_reopen; exact Hw.
 Qed.
 
 Lemma wf_run : forall os d d', wf d -> run d os = Some d' -> wf d'.
@@ -214,7 +221,10 @@ Proof.
     + inversion E; subst. eapply IH; [|exact Hr].
       intros r Hr'. unfold delete in Hr'. apply filter_In in Hr' as [Hr' _]. exact (H r Hr').
     + inversion E; subst. eapply IH; [|exact Hr]. unfold reset. apply from_added_set_status; exact H.
-    + inversion E; subst. eapply IH; [|exact Hr]. exact H.
+    + inversion E; subst. eapply IH; [|exact Hr].
+      intros r Hr'. unfold reopen in Hr'. apply in_map_iff in Hr' as (r0 & E0 & Hr0).
+      destruct (H r0 Hr0) as (u & Hu & Eu). exists u; split; [assumption|].
+      subst r. unfold unclaim. destruct (r_status r0); exact Eu.
 Qed.
 
 Lemma find_id_In : forall d i r, find_id d i = Some r -> In r d /\ r_id r = i.
@@ -264,6 +274,12 @@ Example fields_kept_nonvacuous :
                                        [Row (bs "1") (bs "http://a/") (bs "http://p/") 3 FRESH])
   | None => False
   end.
+Proof. vm_compute. reflexivity. Qed.
+
+(* opening the queue again hands the claimed rows out once more *)
+Example reopen_unclaims :
+  reopen [Row (bs "1") (bs "a") [] 0 CLAIMED; Row (bs "2") (bs "b") [] 0 FRESH; Row (bs "3") (bs "c") [] 1 DONE]
+  = [Row (bs "1") (bs "a") [] 0 FRESH; Row (bs "2") (bs "b") [] 0 FRESH; Row (bs "3") (bs "c") [] 1 DONE].
 Proof. vm_compute. reflexivity. Qed.
 
 (* an id collision with a different value makes Add fail as a whole: nothing of the batch stays *)
